@@ -183,4 +183,5 @@ pub fn run(ctx: &Ctx) {
     for n in lens { ctx.guard_check(&format!("{n}-word phrases accepted"), ctx.has_class(&format!("words={n},valid:accepted")), "at least one valid phrase of this length was accepted"); }
     ctx.guard_check("bad checksums rejected", ctx.classes_matching(|c| c.ends_with("bad-checksum:rejected")) >= 5, "each valid length saw a checksum mismatch rejected");
     crate::hist::histories(ctx, P, "phrase-histories", "Mnemonic::from_phrase / to_phrase, a sequence on one fresh thread", crate::hist::c01_ops(ctx.seed));
+    crate::hist::long_runs(ctx, P, "phrase-long-runs", "Mnemonic::from_phrase / to_phrase, a long run on one fresh thread", if ctx.quick() { 40 } else { 150 }, crate::hist::c01_nth(ctx.seed));
 }
